@@ -40,7 +40,8 @@ EXPLANATION = (
     "— behaviour of the printer on values."
     " (R12) for every kind of literal, each member of the expression that the printer arm for that kind reads (u.integer, u.real, u.binary, u.logical, symbol.name) is stored by the grammar action of the corresponding `literal ::= TOK_.._LITERAL` production."
     " (R13) the fixed word a printer emits for a built-in constant singleton (LITERAL_PI, LITERAL_E, LITERAL_INFINITY ..) is a spelling the lexer maps to the token of the `constant ::= TOK_x` production that yields that singleton."
-    " (R14) the arm of STMT_out for one kind of statement reads, of the statement node itself, only fields that STMTcreate or the constructor of that kind stores (symbol.name is stored by none).")
+    " (R14) the arm of STMT_out for one kind of statement reads, of the statement node itself, only fields that STMTcreate or the constructor of that kind stores (symbol.name is stored by none)."
+    " (R15) no bare early exit of a printer function is decided by a value computed from exppp_linelength (reaching definitions; callees that return a layout value taint the variable they are assigned to): the line length decides layout, not content.")
 from engines import call_args
 
 PLACEHOLDER_DEFAULT = re.compile(r"unknown|Reached default|not handled", re.I)
@@ -1473,6 +1474,82 @@ def r14_statement_fields_written(prog, res, gr):
     res.floor("R14.statement_fields_written", "statement kinds with a constructor and a printer arm", n, 6)
 
 
+def r15_linelength_never_skips_content(prog, res):
+    """The line length (-l) decides where lines break, never *what* is printed.  A value computed from exppp_linelength may therefore not
+    decide an early `return` of a printer function (an exit that skips the rest of the clause).  Flow-sensitive: a definition of a
+    local counts only if it reaches the test (reaching definitions on the CFG); a callee whose returned value is computed from
+    exppp_linelength taints the variable it is assigned to.  ENTITYattrs_out tests the width of the name column to find out whether
+    there is any attribute to print; clamping that width to a third of the line *before* the test makes it 0 for -l 18..20 and the
+    entity loses all its attributes."""
+    SRC = "exppp_linelength"
+
+    def tainted_expr(fn, n, tv):
+        return any((y["k"] == "Ref" and (y.get("n") == SRC or y.get("d") in tv)) or
+                   (y["k"] == "Call" and y.get("fk") in ret_tainted) for y in walk(n))
+
+    # functions whose return value is computed from the line length (flow-insensitive inside the callee, one level)
+    ret_tainted = set()
+    for _ in range(2):
+        for g in prog.all_functions():
+            if g.component != "exppp" or g.key in ret_tainted:
+                continue
+            tv = set()
+            changed = True
+            while changed:
+                changed = False
+                for a in g.walk():
+                    d = None
+                    if a["k"] == "Assign" and strip(a["ch"][0]) is not None and strip(a["ch"][0])["k"] == "Ref":
+                        d, rhs = strip(a["ch"][0]).get("d"), a["ch"][1]
+                    elif a["k"] == "Var" and a.get("ch") and a["ch"][0] is not None:
+                        d, rhs = a["d"], a["ch"][0]
+                    if d and d not in tv and tainted_expr(g, rhs, tv):
+                        tv.add(d)
+                        changed = True
+            if any(r["k"] == "Return" and r.get("ch") and r["ch"][0] is not None and tainted_expr(g, r["ch"][0], tv) for r in g.walk()):
+                ret_tainted.add(g.key)
+    res.info["r15_functions_returning_a_layout_value"] = sorted(k.split("(")[0] for k in ret_tainted)
+    n = 0
+    for f in prog.all_functions():
+        if f.component != "exppp" or f.cfg is None or f.relfile().endswith("exppp.c"):
+            continue
+        for x in f.walk():
+            if x["k"] != "If" or x["ch"][1] is None:
+                continue
+            then = x["ch"][1]
+            stmts = then["ch"] if then["k"] == "Compound" else [then]
+            if not (stmts and stmts[-1] is not None and stmts[-1]["k"] == "Return") or any(y["k"] == "Call" for s_ in stmts for y in walk(s_)):
+                continue     # only bare early exits
+            cond = x["ch"][0]
+            refs = [y for y in walk(cond) if y["k"] == "Ref" and y.get("dk") in ("local", "param")]
+            if not refs:
+                continue
+            n += 1
+            bad = None
+            if any(y["k"] == "Ref" and y.get("n") == SRC for y in walk(cond)):
+                bad = ("the line length itself", x["l"])
+            tpos = f.cfg.locate(x["ch"][0]) or f.first_pos(x["ch"][0])
+            for r in refs:
+                defs = [a for a in f.walk() if (a["k"] == "Assign" and strip(a["ch"][0]) is not None and strip(a["ch"][0]).get("d") == r["d"]) or
+                        (a["k"] == "Var" and a.get("d") == r["d"] and a.get("ch") and a["ch"][0] is not None)]
+                ids = {a["i"] for a in defs}
+
+                def is_def(nd, ids=ids):
+                    return any(z["i"] in ids for z in walk(nd))
+                for a in defs:
+                    rhs = a["ch"][1] if a["k"] == "Assign" else a["ch"][0]
+                    if not tainted_expr(f, rhs, set()):
+                        continue
+                    apos = f.cfg.locate(a)
+                    if apos is not None and tpos is not None and f.cfg.reaches(apos, tpos, is_stop=is_def):
+                        bad = bad or ("`%s = %s` (line %s)" % (r["n"], expr_str(rhs)[:50], a["l"]), a["l"])
+            res.add("R15.linelength_never_skips_content", "R15|%s|%s|%d" % (f.relfile(), f.name, x["l"] - f.line), f.where(x), bad is None,
+                    "the early exit `%s` does not depend on the line length" % expr_str(cond)[:50] if bad is None else
+                    "the early exit `if( %s ) return;` is decided by a value computed from exppp_linelength - %s: for some line lengths the rest of "
+                    "the clause is not printed at all, for others it is" % (expr_str(cond)[:50], bad[0]))
+    res.floor("R15.linelength_never_skips_content", "bare early exits of printer functions", n, 8)
+
+
 def run(prog, res, tier):
     gr = Grammar(prog, res)
     if not gr.ok:
@@ -1494,3 +1571,4 @@ def run(prog, res, tier):
     r12_literal_stored_where_read(prog, res, gr)
     r13_constant_spelling(prog, res, gr)
     r14_statement_fields_written(prog, res, gr)
+    r15_linelength_never_skips_content(prog, res)
